@@ -52,12 +52,14 @@ def starts():
         # objects that already carry an object marking (list-valued property shared with the original)
         "v21-campaign-obj-marked": ("2.1", "obj", dict(camp21, object_marking_refs=[GREEN], labels=["l1"])),
         "v20-campaign-dict-marked": ("2.0", "dict", dict(camp20, object_marking_refs=[GREEN], labels=["l1"])),
+        # a 2.0 OBJECT whose content has a custom member called 'spec_version': its class, not that member, says which rules apply
+        "v20-campaign-obj-custom-spec_version": ("2.0", "objc", dict(camp20, spec_version="2.1")),
     }
 
 
 MAIN = ["v21-campaign-obj", "v21-campaign-dict", "v20-campaign-obj", "v20-campaign-dict"]
 SIDE = ["v21-campaign-obj-subms", "v21-campaign-dict-subms", "v21-relationship-obj", "v20-relationship-obj", "v21-custom-registered-obj", "v21-custom-unregistered-dict",
-        "v21-sco-file-versionable", "v21-sco-file-dict-uuid4", "v21-campaign-obj-marked", "v20-campaign-dict-marked"]
+        "v21-sco-file-versionable", "v21-sco-file-dict-uuid4", "v21-campaign-obj-marked", "v20-campaign-dict-marked", "v20-campaign-obj-custom-spec_version"]
 
 
 def register_custom():
@@ -77,7 +79,7 @@ def make(form):
         return d
     if kind == "sco":
         return stix2.v21.File(allow_custom=True, **{k: v for k, v in d.items() if k not in ("type", "spec_version")})
-    return stix2.parse(d, version=ver, allow_custom=False)
+    return stix2.parse(d, version=ver, allow_custom=(kind == "objc"))
 
 
 def view(obj):
